@@ -1,5 +1,123 @@
-"""Structural corpus (MC_Struct): filled in below; placeholder until Pipeline.tla is bound."""
+"""Structural corpus (MC_Struct): TLC builds every small model (dependency shapes x component layouts
+x unused definitions), checks on each that the operational pipeline of Pipeline.tla refines the
+meaning of the text, and emits models with their expected observations; the harness replays them
+in the real library for the backend under test.  Shared by C01 C02 C03 C04 C05 C06 C07 C12."""
+from __future__ import annotations
+
+import hashlib
+
+from .. import core, tlc, modelcase
+
+ALL_TAGS = {"load", "generate", "harness", "index", "lengths", "rhs", "monitor", "explicit_euler",
+            "generalized_rush_larsen", "hybrid_rush_larsen", "inputs_modified", "remove_unused",
+            "monitor_values"}
+
+PROFILE = {
+    "C01": dict(inv=["C01_RhsRefinesDen", "Topological", "C08_GeneratedAreWellFormed"],
+                tags={"load", "generate", "harness", "rhs"}, backend="numpy", ru=(False,), schemes=[]),
+    "C02": dict(inv=["C01_RhsRefinesDen", "C04_MonitorRefinesDen", "C05_Euler", "C06_GRL"],
+                tags=ALL_TAGS, backend="c", ru=(False, True), schemes=modelcase.SCHEMES),
+    "C03": dict(inv=["C03_OutputLengths", "C01_RhsRefinesDen", "C04_MonitorRefinesDen", "C05_Euler", "C06_GRL"],
+                tags=ALL_TAGS, backend="jax", ru=(False, True), schemes=modelcase.SCHEMES),
+    "C04": dict(inv=["C04_IndexBijective", "C04_MonitorRefinesDen", "C03_OutputLengths", "C01_RhsRefinesDen"],
+                tags=ALL_TAGS - {"load"}, backend="numpy", ru=(False, True), schemes=modelcase.SCHEMES),
+    "C05": dict(inv=["C05_Euler"], tags={"generate", "harness", "explicit_euler", "inputs_modified", "lengths"},
+                backend="numpy", ru=(False, True), schemes=["explicit_euler"]),
+    "C06": dict(inv=["C06_GRL"], tags={"generate", "harness", "generalized_rush_larsen", "lengths"},
+                backend="numpy", ru=(False, True), schemes=["generalized_rush_larsen"]),
+    "C07": dict(inv=["C07_Hybrid"], tags={"generate", "harness", "hybrid_rush_larsen", "lengths"},
+                backend="numpy", ru=(False,), schemes=modelcase.SCHEMES),
+    "C12": dict(inv=["C12_SameResults", "C12_NoUseBeforeDef", "C04_IndexBijective"],
+                tags=ALL_TAGS - {"load"}, backend="numpy", ru=(False, True), schemes=modelcase.SCHEMES),
+}
+
+CONSTS = {"NumLex": "<- NumLexDef", "BigToks": "{}", "NameOrder": "<- NameOrderDef"}
 
 
-def run(chk, pid):
-    return None
+def run_tlc_struct(chk, invs, ninter, emit_mod, simulate=None, timeout=1500, free_schedule=False):
+    consts = dict(CONSTS, NInter=ninter, FreeSchedule=free_schedule, EmitMod=emit_mod)
+    cfg = tlc.make_cfg(constants=consts, invariants=list(invs) + ["Emit"])
+    res = tlc.run_tlc("MC_Struct", cfg, workers=chk.nproc, timeout=timeout, simulate=simulate,
+                      constants_for_summary={"NInter": ninter, "EmitMod": emit_mod, "FreeSchedule": free_schedule,
+                                             "invariants": list(invs)})
+    return res
+
+
+def check_names_sorted(chk, recs):
+    """The specification's NameOrder constant must be the order Python's sorted() gives."""
+    for r in recs[:1]:
+        names = r.get("names")
+        if names and list(names) != sorted(names):
+            raise core.MachineryFailure(f"NameOrder of the specification is not sorted(): {names}")
+
+
+def model_sig(text):
+    return hashlib.sha1(text.encode()).hexdigest()[:8]
+
+
+def report(chk, pid, bad, tags, backend):
+    for b in bad:
+        if b["tag"] not in tags:
+            continue
+        if pid == "C12" and b["tag"] not in ("remove_unused", "generate", "harness") and not b.get("remove_unused"):
+            continue
+        sig = f"{pid}:{backend}:{b['tag']}:{b.get('fn', '')}:ru={b.get('remove_unused')}:model={model_sig(b.get('text', ''))}"
+        if "exception" in b:
+            what = f"{backend} {b['tag']} raised {b['exception']}: {b.get('message', '')[:160]}"
+        elif b["tag"] == "remove_unused":
+            what = f"{backend} {b['fn']}[{b['name']}] = {b['without']!r} without removal, {b['with']!r} with removal"
+        elif "got" in b:
+            what = f"{backend} {b.get('fn')}[{b['name']}] returned {b['got']!r}, the model text means {b['want_exact']}"
+        else:
+            what = f"{backend} {b['tag']} {({k: v for k, v in b.items() if k not in ('text',)})}"[:300]
+        chk.violation(sig, b, what)
+
+
+def run(chk: core.Check, pid: str, backend: str | None = None, quick_models: int = 400, thorough_models: int = 6000):
+    prof = PROFILE[pid]
+    backend = backend or prof["backend"]
+    recs = []
+    if chk.tier == "quick":
+        r1 = run_tlc_struct(chk, prof["inv"], 1, 23)
+        chk.add_tlc(r1)
+        recs += r1.records
+        r3 = run_tlc_struct(chk, prof["inv"][:1], 3, 29, simulate={"num": 12, "depth": 8, "seed": chk.seed + 1}, timeout=600)
+        chk.add_tlc(r3)
+        recs += r3.records
+        cap = quick_models
+    else:
+        r1 = run_tlc_struct(chk, prof["inv"], 1, 5)
+        chk.add_tlc(r1)
+        recs += r1.records
+        r2 = run_tlc_struct(chk, prof["inv"], 2, 211, timeout=3000)
+        chk.add_tlc(r2)
+        recs += r2.records
+        r3 = run_tlc_struct(chk, prof["inv"][:1], 3, 17, simulate={"num": 150, "depth": 8, "seed": chk.seed + 1}, timeout=1800)
+        chk.add_tlc(r3)
+        recs += r3.records
+        cap = thorough_models
+    for r in (r1,):
+        r.records = []
+    if not recs:
+        raise core.MachineryFailure("MC_Struct emitted no model")
+    check_names_sorted(chk, recs)
+    # de-duplicate (simulation emits siblings repeatedly) and cap deterministically
+    uniq = {}
+    for r in recs:
+        uniq.setdefault(modelcase.render_text(r["blocks"]), r)
+    keys = sorted(uniq)
+    if len(keys) > cap:
+        import random
+        keys = random.Random(chk.seed).sample(keys, cap)
+    recs = [uniq[k] for k in keys]
+    workdir = str(tlc.scratch_root())
+    stats, bad = modelcase.replay_model_cases(recs, backend, chk.nproc, remove_unused=prof["ru"], workdir=workdir,
+                                              schemes=prof["schemes"])
+    chk.replayed += stats["models"]
+    chk.extra.setdefault("structural_corpus", []).append({"backend": backend, **stats, "mismatch_records": len(bad)})
+    if stats["compared"] == 0:
+        raise core.MachineryFailure("structural corpus: nothing compared")
+    chk.sample({"model_text": modelcase.render_text(recs[0]["blocks"]), "input": recs[0]["cases"][0]["input"],
+                "expected": recs[0]["cases"][0]["expect"]})
+    report(chk, pid, bad, prof["tags"], backend)
+    return stats
